@@ -346,6 +346,16 @@ impl DatabaseCheckpoint {
 		// We create an empty WAL directory structure for the restored database.
 		fs::create_dir_all(dest_dir).map_err(|e| Error::Io(Arc::new(e)))?;
 
+		// Empty it, too: a directory that held an earlier checkpoint which was
+		// opened as a database has a segment of that time in it, and the manifest
+		// copied next to it (with today's log number) does not accept it.
+		for entry in fs::read_dir(dest_dir).map_err(|e| Error::Io(Arc::new(e)))? {
+			let path = entry.map_err(|e| Error::Io(Arc::new(e)))?.path();
+			if path.is_file() {
+				fs::remove_file(&path).map_err(|e| Error::Io(Arc::new(e)))?;
+			}
+		}
+
 		// Create an empty checkpoint subdirectory for WAL checkpoint tracking
 		let checkpoint_subdir = dest_dir.join("checkpoint");
 		fs::create_dir_all(&checkpoint_subdir).map_err(|e| Error::Io(Arc::new(e)))?;
